@@ -94,51 +94,55 @@ fn c08_fixed_size_kinds() {
         let s = HeartbeatFragSubmessage::_new(any_entity_id(), any_entity_id(), kani::any(), kani::any(), kani::any());
         let w = encode(&header, &[&s]);
         let img: [u8; 48] = image(w.buffer(), &header, HEARTBEAT_FRAG, Some(1));
-        let m = decode_single(&img[..], &header);
-        match first(&m) {
-            RtpsSubmessageReadKind::HeartbeatFrag(d) => {
+        let (sh, body) = sub_at_20(&img[..], &header);
+        match HeartbeatFragSubmessage::try_from_bytes(&sh, body) {
+            Ok(dd) => {
+                let d = &dd;
                 assert!(*d == s, "C08: HEARTBEAT_FRAG differs after the round trip");
                 assert!(d._writer_sn() == s._writer_sn() && d._last_fragment_num() == s._last_fragment_num() && d.count() == s.count(), "C08: HEARTBEAT_FRAG fields");
                 kani::cover!(d._last_fragment_num() == u32::MAX && d._writer_sn() == i64::MIN, "extreme HEARTBEAT_FRAG values round-trip");
+                core::mem::forget(dd);
             }
-            _ => assert!(false, "C08: HEARTBEAT_FRAG decoded as another kind"),
+            Err(_) => assert!(false, "C08: HEARTBEAT_FRAG produced by dust-dds is rejected by its own decoder"),
         }
-        core::mem::forget(m);
         core::mem::forget(w);
     }
     {
         let s = InfoDestinationSubmessage::new(kani::any());
         let w = encode(&header, &[&s]);
         let img: [u8; 36] = image(w.buffer(), &header, INFO_DST, Some(1));
-        let m = decode_single(&img[..], &header);
-        match first(&m) {
-            RtpsSubmessageReadKind::InfoDestination(d) => assert!(d.guid_prefix() == s.guid_prefix(), "C08: INFO_DST guid prefix"),
-            _ => assert!(false, "C08: INFO_DST decoded as another kind"),
+        let (sh, body) = sub_at_20(&img[..], &header);
+        match InfoDestinationSubmessage::try_from_bytes(&sh, body) {
+            Ok(dd) => {
+                let d = &dd;
+                assert!(d.guid_prefix() == s.guid_prefix(), "C08: INFO_DST guid prefix");
+                core::mem::forget(dd);
+            }
+            Err(_) => assert!(false, "C08: INFO_DST produced by dust-dds is rejected by its own decoder"),
         }
-        core::mem::forget(m);
         core::mem::forget(w);
     }
     {
         let s = InfoSourceSubmessage::_new(ProtocolVersion::new(kani::any(), kani::any()), kani::any(), kani::any());
         let w = encode(&header, &[&s]);
         let img: [u8; 44] = image(w.buffer(), &header, INFO_SRC, Some(1));
-        let m = decode_single(&img[..], &header);
-        match first(&m) {
-            RtpsSubmessageReadKind::InfoSource(d) => {
+        let (sh, body) = sub_at_20(&img[..], &header);
+        match InfoSourceSubmessage::try_from_bytes(&sh, body) {
+            Ok(dd) => {
+                let d = &dd;
                 assert!(d.protocol_version() == s.protocol_version() && d.vendor_id() == s.vendor_id() && d.guid_prefix() == s.guid_prefix(), "C08: INFO_SRC fields");
+                core::mem::forget(dd);
             }
-            _ => assert!(false, "C08: INFO_SRC decoded as another kind"),
+            Err(_) => assert!(false, "C08: INFO_SRC produced by dust-dds is rejected by its own decoder"),
         }
-        core::mem::forget(m);
         core::mem::forget(w);
     }
     {
         let s = PadSubmessage::new();
         let w = encode(&header, &[&s]);
         let img: [u8; 24] = image(w.buffer(), &header, PAD, Some(1));
-        let m = decode_single(&img[..], &header);
-        assert!(matches!(first(&m), RtpsSubmessageReadKind::Pad(_)), "C08: PAD decoded as another kind");
-        core::mem::forget(m);
+        let (sh, body) = sub_at_20(&img[..], &header);
+        assert!(body.is_empty() && PadSubmessage::try_from_bytes(&sh, body).is_ok(), "C08: PAD produced by dust-dds is rejected by its own decoder");
         core::mem::forget(w);
     }
 }
@@ -158,158 +162,157 @@ fn c08_info_timestamp() {
         let s = InfoTimestampSubmessage::new(false, t);
         let w = encode(&header, &[&s]);
         let img: [u8; 32] = image(w.buffer(), &header, INFO_TS, Some(0b01));
-        let m = decode_single(&img[..], &header);
-        match first(&m) {
-            RtpsSubmessageReadKind::InfoTimestamp(d) => {
+        let (sh, body) = sub_at_20(&img[..], &header);
+        match InfoTimestampSubmessage::try_from_bytes(&sh, body) {
+            Ok(dd) => {
+                let d = &dd;
                 assert!(!d.invalidate_flag() && d.timestamp() == t, "C08: INFO_TS timestamp");
                 kani::cover!(d.timestamp().seconds() == u32::MAX && d.timestamp().fraction() == 1, "a timestamp with seconds = u32::MAX round-trips");
+                core::mem::forget(dd);
             }
-            _ => assert!(false, "C08: INFO_TS decoded as another kind"),
+            Err(_) => assert!(false, "C08: INFO_TS produced by dust-dds is rejected by its own decoder"),
         }
-        core::mem::forget(m);
         core::mem::forget(w);
     }
     {
         let s = InfoTimestampSubmessage::new(true, t);
         let w = encode(&header, &[&s]);
         let img: [u8; 24] = image(w.buffer(), &header, INFO_TS, Some(0b11));
-        let m = decode_single(&img[..], &header);
-        match first(&m) {
-            RtpsSubmessageReadKind::InfoTimestamp(d) => assert!(d.invalidate_flag() && d.timestamp() == TIME_INVALID, "C08: INFO_TS invalidate"),
-            _ => assert!(false, "C08: INFO_TS decoded as another kind"),
+        let (sh, body) = sub_at_20(&img[..], &header);
+        match InfoTimestampSubmessage::try_from_bytes(&sh, body) {
+            Ok(dd) => {
+                let d = &dd;
+                assert!(d.invalidate_flag() && d.timestamp() == TIME_INVALID, "C08: INFO_TS invalidate");
+                core::mem::forget(dd);
+            }
+            Err(_) => assert!(false, "C08: INFO_TS produced by dust-dds is rejected by its own decoder"),
         }
-        core::mem::forget(m);
         core::mem::forget(w);
     }
 }
 
 /// ACKNACK with a SequenceNumberSet of `W` bitmap words (message 48 + 4*W bytes).
-fn acknack_trip<const N: usize>(fin: bool, dmax: Option<u32>) {
+fn acknack_trip<const N: usize, const W: usize>(fin: bool, nb: u32) {
     let header = any_header();
     let base: i64 = kani::any();
-    kani::assume(base <= i64::MAX - 256);
-    let set = any_sn_set(base, dmax, kani::any());
+    let set = sn_set::<W>(base, nb);
     let s = AckNackSubmessage::new(fin, any_entity_id(), any_entity_id(), set.clone(), kani::any());
     let w = encode(&header, &[&s]);
     let mut img: [u8; N] = image(w.buffer(), &header, ACKNACK, Some(1 | ((fin as u8) << 1)));
-    let nb = match dmax { None => 0, Some(d) => d + 1 };
-    assert!(N == 48 + 4 * ((nb as usize + 31) / 32), "C08: harness message size");
+    assert!(N == 48 + 4 * W, "C08: harness message size");
     pin_u32(&mut img, 40, nb, "C08: ACKNACK numBits on the wire");
-    let m = decode_single(&img[..], &header);
-    match first(&m) {
-        RtpsSubmessageReadKind::AckNack(d) => {
+    let (sh, body) = sub_at_20(&img[..], &header);
+    match AckNackSubmessage::try_from_bytes(&sh, body) {
+        Ok(dd) => {
+            let d = &dd;
             assert!(d._final_flag() == fin && d.reader_id() == s.reader_id() && d.writer_id() == s.writer_id() && d.count() == s.count(), "C08: ACKNACK flags / ids / count");
             assert!(d.reader_sn_state().base() == base, "C08: ACKNACK set base");
             assert!(*d.reader_sn_state() == set, "C08: ACKNACK set (base, numBits, bitmap) differs after the round trip");
-            kani::cover!(base < -1_000_000 && d.count() == i32::MAX, "a negative base and count = i32::MAX round-trip");
-            kani::cover!(nb > 32 && wire_u32(&img, 48) != 0, "a set bit in the second bitmap word round-trips");
+            kani::cover!(base == i64::MAX && d.count() == i32::MAX && (nb <= 32 || wire_u32(&img, 44 + 4 * (W - 1)) != 0), "base = i64::MAX, count = i32::MAX and a set bit in the last bitmap word round-trip");
+            core::mem::forget(dd);
         }
-        _ => assert!(false, "C08: ACKNACK decoded as another kind"),
+        Err(_) => assert!(false, "C08: ACKNACK produced by dust-dds is rejected by its own decoder"),
     }
-    core::mem::forget(m);
     core::mem::forget(w);
 }
 
 // @check props=C08 tier=quick
-// @desc ACKNACK with a SequenceNumberSet of numBits = 34 (two bitmap words, membership of the 33 lower offsets symbolic), base over the full i64 range (up to i64::MAX - 256), count full i32, final flag clear: header, flags, ids, set (base, numBits, bitmap) and count round-trip; octetsToNextHeader = 24 + 4 * ceil(numBits / 32)
-// @bounds numBits = 34 (highest member offset 33 concrete so that the encoded length is concrete), lower membership bits symbolic; message 56 bytes; unwind 60
-// @assume base <= i64::MAX - 256 (so that base + offset does not overflow when the harness builds the member list for SequenceNumberSet::new)
+// @desc ACKNACK with a SequenceNumberSet of numBits = 34 (two bitmap words, membership of the 33 lower offsets symbolic), base over the full i64 range, count full i32, final flag clear: header, flags, ids, set (base, numBits, bitmap) and count round-trip; octetsToNextHeader = 24 + 4 * ceil(numBits / 32)
+// @bounds numBits = 34 concrete (so that the encoded length is concrete), membership of the 33 lower offsets symbolic, base any i64; message 56 bytes; unwind 60
+// @assume the set value is obtained from the real element decoder on a harness-written image (bits >= numBits clear, bit numBits-1 set: the shape SequenceNumberSet::new produces); SequenceNumberSet::new on a symbolic member list makes every encoder length symbolic and does not finish
 // @enc rtps_messages::overall_structure::RtpsMessageWrite::new
 // @enc rtps_messages::overall_structure::RtpsMessageRead::try_from
-// @enc rtps_messages::submessage_elements::SequenceNumberSet::new
 // @enc rtps_messages::submessage_elements::SequenceNumberSet::write_into_bytes
 // @enc rtps_messages::submessages::ack_nack::AckNackSubmessage::try_from_bytes
 #[kani::proof]
 #[kani::unwind(60)]
 fn c08_acknack() {
-    acknack_trip::<56>(false, Some(33));
+    acknack_trip::<56, 2>(false, 34);
 }
 
 // @check props=C08 tier=thorough
 // @desc ACKNACK: empty set (numBits 0), numBits 1, 32 and 64, final flag set
-// @bounds numBits in {0, 1, 32, 64}, lower membership bits symbolic; unwind 68
-// @assume base <= i64::MAX - 256
+// @bounds numBits in {0, 1, 32, 64}, membership symbolic; unwind 68
+// @assume set values obtained from the real element decoder (see c08_acknack)
 // @enc rtps_messages::overall_structure::RtpsMessageWrite::new
 // @enc rtps_messages::overall_structure::RtpsMessageRead::try_from
 #[kani::proof]
 #[kani::unwind(68)]
 fn c08_acknack_other_sizes() {
-    acknack_trip::<48>(true, None);
-    acknack_trip::<52>(true, Some(0));
-    acknack_trip::<52>(false, Some(31));
-    acknack_trip::<56>(true, Some(63));
+    acknack_trip::<48, 0>(true, 0);
+    acknack_trip::<52, 1>(true, 1);
+    acknack_trip::<52, 1>(false, 32);
+    acknack_trip::<56, 2>(true, 64);
 }
 
 // @check props=C08 tier=thorough timeout=1500
 // @desc ACKNACK with the maximal SequenceNumberSet: numBits = 256 (8 bitmap words), membership of offsets 0..63 symbolic (the mask repeats every 64 offsets)
 // @bounds numBits 256; message 80 bytes; unwind 260
-// @assume base <= i64::MAX - 256
+// @assume set values obtained from the real element decoder (see c08_acknack)
 // @enc rtps_messages::overall_structure::RtpsMessageWrite::new
 // @enc rtps_messages::overall_structure::RtpsMessageRead::try_from
 #[kani::proof]
 #[kani::unwind(260)]
 fn c08_acknack_256() {
-    acknack_trip::<80>(false, Some(255));
+    acknack_trip::<80, 8>(false, 256);
 }
 
-fn gap_trip<const N: usize>(dmax: Option<u32>) {
+fn gap_trip<const N: usize, const W: usize>(nb: u32) {
     let header = any_header();
     let base: i64 = kani::any();
-    kani::assume(base <= i64::MAX - 256);
-    let set = any_sn_set(base, dmax, kani::any());
+    let set = sn_set::<W>(base, nb);
     let s = GapSubmessage::new(any_entity_id(), any_entity_id(), kani::any(), set.clone());
     let w = encode(&header, &[&s]);
     let mut img: [u8; N] = image(w.buffer(), &header, GAP, Some(1));
-    let nb = match dmax { None => 0, Some(d) => d + 1 };
-    assert!(N == 52 + 4 * ((nb as usize + 31) / 32), "C08: harness message size");
+    assert!(N == 52 + 4 * W, "C08: harness message size");
     pin_u32(&mut img, 48, nb, "C08: GAP numBits on the wire");
-    let m = decode_single(&img[..], &header);
-    match first(&m) {
-        RtpsSubmessageReadKind::Gap(d) => {
+    let (sh, body) = sub_at_20(&img[..], &header);
+    match GapSubmessage::try_from_bytes(&sh, body) {
+        Ok(dd) => {
+            let d = &dd;
             assert!(d._reader_id() == s._reader_id() && d.writer_id() == s.writer_id(), "C08: GAP ids");
             assert!(d.gap_start() == s.gap_start(), "C08: GAP start");
             assert!(*d.gap_list() == set, "C08: GAP list differs after the round trip");
             kani::cover!(d.gap_start() == i64::MIN && base > 0x7000_0000_0000_0000, "gap_start = i64::MIN and a base near i64::MAX round-trip");
+            core::mem::forget(dd);
         }
-        _ => assert!(false, "C08: GAP decoded as another kind"),
+        Err(_) => assert!(false, "C08: GAP produced by dust-dds is rejected by its own decoder"),
     }
-    core::mem::forget(m);
     core::mem::forget(w);
 }
 
 // @check props=C08 tier=quick
-// @desc GAP with gap_start over the full i64 range and a gap list of numBits = 41 (two bitmap words, lower membership symbolic), base up to i64::MAX - 256: ids, start and list round-trip; octetsToNextHeader = 28 + 4 * ceil(numBits / 32)
+// @desc GAP with gap_start over the full i64 range and a gap list of numBits = 41 (two bitmap words, lower membership symbolic), any base: ids, start and list round-trip; octetsToNextHeader = 28 + 4 * ceil(numBits / 32)
 // @bounds numBits = 41; message 60 bytes; unwind 64
-// @assume base <= i64::MAX - 256
+// @assume set values obtained from the real element decoder (see c08_acknack)
 // @enc rtps_messages::overall_structure::RtpsMessageWrite::new
 // @enc rtps_messages::overall_structure::RtpsMessageRead::try_from
 // @enc rtps_messages::submessages::gap::GapSubmessage::try_from_bytes
 #[kani::proof]
 #[kani::unwind(64)]
 fn c08_gap() {
-    gap_trip::<60>(Some(40));
+    gap_trip::<60, 2>(41);
 }
 
 // @check props=C08 tier=thorough
 // @desc GAP with an empty list and with numBits = 64
 // @bounds numBits in {0, 64}; unwind 68
-// @assume base <= i64::MAX - 256
+// @assume set values obtained from the real element decoder (see c08_acknack)
 // @enc rtps_messages::overall_structure::RtpsMessageWrite::new
 // @enc rtps_messages::overall_structure::RtpsMessageRead::try_from
 #[kani::proof]
 #[kani::unwind(68)]
 fn c08_gap_other_sizes() {
-    gap_trip::<52>(None);
-    gap_trip::<60>(Some(63));
+    gap_trip::<52, 0>(0);
+    gap_trip::<60, 2>(64);
 }
 
 // @check props=C08 tier=quick
-// @desc NACK_FRAG with writerSN full i64, count full i32, FragmentNumberSet base up to u32::MAX - 256 and members {base, base+2, base+32, base+33} (numBits 34): ids, sequence number, set and count round-trip; the bitmap words on the wire are 0xa0000000, 0xc0000000 (RTPS bit order: offset i <-> bit 31 - i%32 of word i/32); octetsToNextHeader = 36
+// @desc NACK_FRAG with writerSN full i64, count full i32, FragmentNumberSet base up to u32::MAX - 33 and members {base, base+2, base+32, base+33} (numBits 34): ids, sequence number, set and count round-trip; the bitmap words on the wire are 0xa0000000, 0xc0000000 (RTPS bit order: offset i <-> bit 31 - i%32 of word i/32); octetsToNextHeader = 36
 // @bounds membership pattern concrete (the real FragmentNumberSet decoder materialises members in a Vec: a symbolic bitmap is not tractable, see C07), base symbolic; message 60 bytes; unwind 64
-// @assume base <= u32::MAX - 256
+// @assume base <= u32::MAX - 33 (no member overflows u32, cf. KF-C07-2); the set value is obtained from the real element decoder on a harness-written image
 // @enc rtps_messages::overall_structure::RtpsMessageWrite::new
 // @enc rtps_messages::overall_structure::RtpsMessageRead::try_from
-// @enc rtps_messages::submessage_elements::FragmentNumberSet::new
 // @enc rtps_messages::submessage_elements::FragmentNumberSet::try_read_from_bytes
 // @enc rtps_messages::submessages::nack_frag::NackFragSubmessage::try_from_bytes
 #[kani::proof]
@@ -317,25 +320,26 @@ fn c08_gap_other_sizes() {
 fn c08_nack_frag() {
     let header = any_header();
     let base: u32 = kani::any();
-    kani::assume(base <= u32::MAX - 256);
-    let set = any_fn_set(base, Some(33), 0x1_0000_0005);
+    kani::assume(base <= u32::MAX - 33);
+    let set = fn_set_34(base);
     let s = NackFragSubmessage::new(any_entity_id(), any_entity_id(), kani::any(), set.clone(), kani::any());
     let w = encode(&header, &[&s]);
     let mut img: [u8; 60] = image(w.buffer(), &header, NACK_FRAG, Some(1));
     pin_u32(&mut img, 44, 34, "C08: NACK_FRAG numBits on the wire");
     pin_u32(&mut img, 48, 0xa000_0000, "C08: NACK_FRAG bitmap word 0 (offsets 0 and 2)");
     pin_u32(&mut img, 52, 0xc000_0000, "C08: NACK_FRAG bitmap word 1 (offsets 32 and 33)");
-    let m = decode_single(&img[..], &header);
-    match first(&m) {
-        RtpsSubmessageReadKind::NackFrag(d) => {
+    let (sh, body) = sub_at_20(&img[..], &header);
+    match NackFragSubmessage::try_from_bytes(&sh, body) {
+        Ok(dd) => {
+            let d = &dd;
             assert!(d.reader_id() == s.reader_id() && d._writer_id() == s._writer_id(), "C08: NACK_FRAG ids");
             assert!(d.writer_sn() == s.writer_sn() && d.count() == s.count(), "C08: NACK_FRAG sequence number / count");
             assert!(*d.fragment_number_state() == set, "C08: NACK_FRAG set differs after the round trip");
             kani::cover!(base > 0xf000_0000 && d.writer_sn() < 0, "a large fragment base and a negative sequence number round-trip");
+            core::mem::forget(dd);
         }
-        _ => assert!(false, "C08: NACK_FRAG decoded as another kind"),
+        Err(_) => assert!(false, "C08: NACK_FRAG produced by dust-dds is rejected by its own decoder"),
     }
-    core::mem::forget(m);
     core::mem::forget(w);
 }
 
@@ -361,9 +365,10 @@ fn data_trip<const N: usize, const P: usize>(qos: bool, d_flag: bool, k_flag: bo
         pin_u16(&mut img, 46, 4, "C08: parameter length on the wire");
         pin_u16(&mut img, 52, 1, "C08: sentinel after the parameter list");
     }
-    let m = decode_single(&img[..], &header);
-    match first(&m) {
-        RtpsSubmessageReadKind::Data(d) => {
+    let (sh, body) = sub_at_20(&img[..], &header);
+    match DataSubmessage::try_from_bytes(&sh, body) {
+        Ok(dd) => {
+            let d = &dd;
             assert!(d._inline_qos_flag() == qos && d._data_flag() == d_flag && d._key_flag() == k_flag && d._non_standard_payload_flag() == n_flag, "C08: DATA flags");
             assert!(d.reader_id() == s.reader_id() && d.writer_id() == s.writer_id() && d.writer_sn() == s.writer_sn(), "C08: DATA ids / sequence number");
             assert!(d.inline_qos().parameter().len() == qos as usize, "C08: DATA inline QoS parameter count");
@@ -380,11 +385,13 @@ fn data_trip<const N: usize, const P: usize>(qos: bool, d_flag: bool, k_flag: bo
                 i += 1;
             }
             assert!(*d == s, "C08: DATA differs after the round trip");
-            kani::cover!(d.writer_sn() == i64::MAX, "writer_sn = i64::MAX round-trips");
+            if qos || !has_payload || P == 0 {
+                kani::cover!(d.writer_sn() == i64::MAX, "writer_sn = i64::MAX round-trips");
+            }
+            core::mem::forget(dd);
         }
-        _ => assert!(false, "C08: DATA decoded as another kind"),
+        Err(_) => assert!(false, "C08: DATA produced by dust-dds is rejected by its own decoder"),
     }
-    core::mem::forget(m);
     core::mem::forget(w);
 }
 
@@ -439,9 +446,10 @@ fn data_frag_trip<const N: usize, const P: usize>(qos: bool, k_flag: bool, n_fla
         pin_u16(&mut img, 58, 4, "C08: parameter length on the wire");
         pin_u16(&mut img, 64, 1, "C08: sentinel after the parameter list");
     }
-    let m = decode_single(&img[..], &header);
-    match first(&m) {
-        RtpsSubmessageReadKind::DataFrag(d) => {
+    let (sh, body) = sub_at_20(&img[..], &header);
+    match DataFragSubmessage::try_from_bytes(&sh, body) {
+        Ok(dd) => {
+            let d = &dd;
             assert!(d.inline_qos_flag() == qos && d.key_flag() == k_flag && d._non_standard_payload_flag() == n_flag, "C08: DATA_FRAG flags");
             assert!(d.reader_id() == s.reader_id() && d.writer_id() == s.writer_id() && d.writer_sn() == s.writer_sn(), "C08: DATA_FRAG ids / sequence number");
             assert!(d.fragment_starting_num() == s.fragment_starting_num() && d.fragments_in_submessage() == s.fragments_in_submessage() && d.fragment_size() == s.fragment_size() && d.data_size() == s.data_size(), "C08: DATA_FRAG fragment fields");
@@ -458,10 +466,10 @@ fn data_frag_trip<const N: usize, const P: usize>(qos: bool, k_flag: bool, n_fla
                 i += 1;
             }
             kani::cover!(d.data_size() == u32::MAX && d.fragment_size() == 0 && d.fragment_starting_num() == 0, "extreme fragment fields round-trip");
+            core::mem::forget(dd);
         }
-        _ => assert!(false, "C08: DATA_FRAG decoded as another kind"),
+        Err(_) => assert!(false, "C08: DATA_FRAG produced by dust-dds is rejected by its own decoder"),
     }
-    core::mem::forget(m);
     core::mem::forget(w);
 }
 
@@ -501,12 +509,12 @@ fn be_sn(b: &mut [u8], at: usize, sn: i64) {
 
 // @check props=C08 tier=quick
 // @desc big-endian decode: a HEARTBEAT and an ACKNACK (numBits 33, symbolic bitmap words) written big-endian (flag E clear) by a 15-line harness-side writer decode, through the real parser, to the field values they were written from; the same ACKNACK value encoded by dust-dds (little-endian) therefore decodes to the same value from both byte orders
-// @bounds all field values symbolic (sequence numbers full i64, counts full i32, bitmap words full i32); flags octet concrete; messages 52 / 56 bytes; unwind 12
+// @bounds all field values symbolic (sequence numbers full i64, counts full i32, bitmap words full i32); flags octet concrete; messages 52 / 56 bytes; unwind 14 (12-byte prefix comparison)
 // @enc rtps_messages::overall_structure::RtpsMessageRead::try_from
 // @enc rtps_messages::submessages::heartbeat::HeartbeatSubmessage::try_from_bytes
 // @enc rtps_messages::submessages::ack_nack::AckNackSubmessage::try_from_bytes
 #[kani::proof]
-#[kani::unwind(12)]
+#[kani::unwind(14)]
 fn c08_big_endian_decode() {
     let prefix: [u8; 12] = kani::any();
     let rid: [u8; 4] = kani::any();
